@@ -11,7 +11,9 @@ use quantity::*;
 use serde_json::json;
 use std::sync::Arc;
 
-pub const TOL: f64 = 3e-10;
+// worst round-off seen on the unchanged tree over ~2e6 thorough cases: 3.05e-10 (gc-PC-SAFT, second
+// composition derivatives); seeded errors are >= 1e-6
+pub const TOL: f64 = 1e-9;
 pub const TOL_SCALE: f64 = 1e-9;
 
 fn rel(terms: &[f64]) -> f64 {
